@@ -103,6 +103,10 @@ def draw_values(rnd, n, style):
     if style == "coarse":
         # few distinct values, many zeros: exact cancellations between different environments are common
         return np.array([rnd.choice((-1.0, -0.5, 0.0, 0.0, 0.5, 1.0)) for _ in range(n)])
+    if style == "wide":
+        # powers of two from 2^-16 to 2^16 with either sign: sums stay exact (well inside 53 bits), but anything
+        # with an absolute tolerance ("treat |dE| < 1e-8 as zero", isclose) sees values on both sides of it
+        return np.array([rnd.choice((-1.0, 1.0)) * 2.0 ** rnd.randrange(-16, 17) for _ in range(n)])
     if style == "integer":
         # an integer array (what a user typing whole numbers gets): arithmetic is exact, halves must not truncate
         return np.array([rnd.randrange(-5, 6) for _ in range(n)], dtype=int)
@@ -147,7 +151,7 @@ class World(object):
         self.vacsite = jumping[w["vacsite"] % len(jumping)] if self.vac else None
         self.scale = float(np.sum(np.abs(self.evalues)) * max(1, self.nsites) +
                            np.sum(np.abs(self.tsvalues)) + np.sum(np.abs(self.kra)) + 1.0)
-        self.exact = w["values"] in ("dyadic", "coarse", "integer")
+        self.exact = w["values"] in ("dyadic", "coarse", "integer", "wide")
 
     def sampler(self, vacsite=None, decoy=False, private=False):
         """A brand-new sampler through the public constructors. decoy=True: a different sampler (other
@@ -477,7 +481,7 @@ class Run(RunBase):
         if x < 0.70:
             return {"op": "swap", "o": rng.randrange(self.n), "u": rng.randrange(self.n), "do": True,
                     "jit_first": rng.random() < 0.5}
-        L = rng.choice((1, 2, 4, 8, 16, 32, 64))
+        L = rng.choice((0, 1, 2, 4, 8, 16, 32, 64))
         if self.W.exact:
             # dyadic worlds: every dE is exact, so exact ties dE == kTlogu are decidable (the Metropolis rule
             # rejects them); a third of the values sit on the 1/16 grid where ties (incl. dE = 0 = kTlogu) occur
@@ -888,8 +892,9 @@ class Run(RunBase):
                 self.mocc[o], self.mocc[u] = 1, 0
                 nacc += 1
         oc, uc, kt = oc[:L], uc[:L], kt[:L]
-        if L > 0:
-            jit.MCmoves(oc, uc, kt)
+        jit.MCmoves(oc, uc, kt)          # an empty batch (L == 0) is a legal call and must change nothing
+        if L == 0:
+            self.probes["empty-batch"] += 1
         self.faults["injected-random-batch"] += 1
         self.probes["mcmoves-accepted"] += nacc
         self.probes["mcmoves-rejected"] += L - nacc
@@ -993,7 +998,7 @@ class Engine(object):
             c = rng.choice(sorted(CRYSTALS))
             s = rng.choice(sorted(SUPERS))
             cutoff = rng.choice(CRYSTALS[c][0])
-            order = rng.choice((2, 3, 3, 3, 4))
+            order = rng.choice((1, 2, 3, 3, 3, 4))
             S = np.array(SUPERS[s])
             nsites = abs(int(round(np.linalg.det(S)))) * NSITES.get(c, 1)
             if nsites > (54 if self.tier == "thorough" else 36):
@@ -1007,7 +1012,7 @@ class Engine(object):
                 continue   # a cell whose only site is the vacancy holds no atoms: no sampler to speak of
             w = {"crystal": c, "super": s, "cutoff": cutoff, "order": order, "vac": vac,
                  "vacsite": rng.randrange(64), "jumps": jumps, "kra": rng.choice(("scalar", "list", "zero")),
-                 "ts": jumps and ts_drawn, "values": rng.choice(("dyadic", "dyadic", "normal", "coarse", "integer")),
+                 "ts": jumps and ts_drawn, "values": rng.choice(("dyadic", "dyadic", "normal", "coarse", "integer", "wide")),
                  "vseed": rng.randrange(1 << 30), "sseed": rng.randrange(1 << 30)}
             w["shared_sup"] = rng.choice((False, False, False, False, "values", "jumpnet"))
             w["quiet"] = rng.choice((0, 0, 0.5, 0.9))
